@@ -396,6 +396,7 @@ func main() {
 			}
 		}
 	}
+	strides(run, tier)
 	// T: validate the concatenated log against the specification
 	cfg := fmt.Sprintf("SPECIFICATION TraceSpec\nCONSTANTS\n  MaxPolls = 100000\n  MaxDepth = 1\n  Guard = TRUE\n  Bound = %d\nINVARIANTS CancelReported NeverFiredEqualsPlain BoundedAfterFire\nPOSTCONDITION TraceAccepted\n", bound)
 	if f := os.Getenv("VERIF_KEEP_TRACE"); f != "" {
